@@ -100,7 +100,7 @@ func v1SameMemberTwice(d v1.Diff) bool {
 	return false
 }
 
-var c17OptSets = []string{"list", "list", "set", "mset", "setkeys:id", "set+setkeys:id", "merge", "set+mset", "mset+set"}
+var c17OptSets = []string{"list", "list", "set", "mset", "setkeys:id", "set+setkeys:id", "merge", "set+mset", "mset+set", "set+merge", "mset+merge"}
 
 func checkC17(c PairCase, r *rec.Rec) error {
 	av, err := val.Parse(c.A)
@@ -195,7 +195,7 @@ func genC17(t *rapid.T) PairCase {
 		return genEqPair(t, []string{"list"}, true)
 	}
 	if gen.Chance(t, "boundary", 20) {
-		pc := genEqPair(t, []string{"list", "set", "mset", "setkeys:id", "set+setkeys:id", "merge"}, false)
+		pc := genEqPair(t, []string{"list", "set", "mset", "setkeys:id", "set+setkeys:id", "merge", "set+merge", "mset+merge"}, false)
 		return pc
 	}
 	return genPairCase(t, c17OptSets, func(p *gen.Profile) {
